@@ -3,10 +3,7 @@ From PV Require Import M_Io Gen_SaveGac Gen_Consts.
 Import ListNotations.
 Open Scope Z_scope.
 
-(* ---------- every product is cut by the same call ---------- *)
-Definition std_kwargs : list (string * string) :=
-  [("end_line", "end_line"); ("first_valid_lat", "first_valid_lat"); ("last_valid_lat", "last_valid_lat"); ("start_line", "start_line")]%string.
-
+(* ---------- the call tables (Gen_SaveGac: traced on tagged inputs) ---------- *)
 Fixpoint kw_eqb (a b : list (string * string)) : bool :=
   match a, b with
   | [], [] => true
@@ -15,70 +12,54 @@ Fixpoint kw_eqb (a b : list (string * string)) : bool :=
   end.
 Fixpoint str_mem (x : string) (l : list string) : bool := match l with [] => false | y :: r => String.eqb x y || str_mem x r end.
 
-(* a product call: target = product expression (sliced in place), the four selection arguments and nothing else *)
-Definition product_call_ok (c : list string * string * list (string * string)) : bool :=
-  let '(targets, product, kw) := c in
-  match targets with
-  | [t; u; v] => String.eqb t product && String.eqb u "_" && String.eqb v "_" && kw_eqb kw std_kwargs
-  | _ => false
-  end.
-
+(* every product is cut by slice_channel with the same four selection arguments, each bound to the quantity of its name *)
+Definition std_kwargs : list (string * string) :=
+  [("end_line", "end_line"); ("first_valid_lat", "first_valid_lat"); ("last_valid_lat", "last_valid_lat"); ("start_line", "start_line")]%string.
+Definition selection (kw : list (string * string)) : list (string * string) :=
+  filter (fun p => str_mem (fst p) ["end_line"; "first_valid_lat"; "last_valid_lat"; "start_line"]%string) kw.
 Definition products15 : list string :=
-  ["ref1"; "ref2"; "ref3"; "bt3"; "bt4"; "bt5"; "sun_zen"; "sun_azi"; "sat_zen"; "sat_azi"; "rel_azi"; "lons"; "lats"; "qual_flags"; "xutcs"]%string.
-
+  ["ch0"; "ch1"; "ch2"; "ch3"; "ch4"; "ch5"; "sun_zen"; "sun_azi"; "sat_zen"; "sat_azi"; "rel_azi"; "lons"; "lats"; "qual_flags"; "times"]%string.
+Definition meta_call_ok (c : string * list (string * string)) : bool :=
+  kw_eqb (selection (snd c)) std_kwargs &&
+  forallb (fun k => str_mem k (map fst (snd c))) ["midnight_scanline"; "miss_lines"; "qual_flags"]%string &&
+  forallb (fun p => String.eqb (fst p) (snd p)) (snd c).
+Definition product_call_ok (c : string * list (string * string)) : bool := kw_eqb (snd c) std_kwargs.
 Definition uniform_ok : bool :=
-  match slice_calls with
-  | meta :: rest =>
-      (* the first call computes the re-indexed meta data with the same selection arguments *)
-      (let '(targets, _, kw) := meta in
-       kw_eqb (filter (fun p => str_mem (fst p) ["end_line"; "first_valid_lat"; "last_valid_lat"; "start_line"]%string) kw) std_kwargs) &&
-      forallb product_call_ok rest &&
-      (length rest =? 15)%nat &&
-      forallb (fun p => str_mem p (map (fun c => snd (fst c)) rest)) products15
-  | [] => false
-  end.
-
+  let metas := filter (fun c => String.eqb (fst c) "meta") slice_calls in
+  let prods := filter (fun c => negb (String.eqb (fst c) "meta")) slice_calls in
+  (length metas =? 1)%nat && forallb meta_call_ok metas &&
+  forallb product_call_ok prods && (length prods =? 15)%nat &&
+  forallb (fun p => str_mem p (map fst prods)) products15.
 Lemma uniform : uniform_ok = true.
 Proof. vm_compute. reflexivity. Qed.
 
-(* reader -> writer argument order: Reader.save passes each quantity in the position of the parameter of that name *)
-Definition expected_save_args : list string :=
-  ["self.spacecraft_name"; "self._times_as_np_datetime64"; "self.lats"; "self.lons";
-   "channels[:, :, 0]"; "channels[:, :, 1]"; "channels[:, :, 2]"; "channels[:, :, 3]"; "channels[:, :, 4]"; "channels[:, :, 5]";
-   "sun_zen"; "sat_zen"; "sun_azi"; "sat_azi"; "rel_azi"; "qual_flags"; "start_line"; "end_line"; "self.filename"; "self.meta_data";
-   "output_file_prefix"; "avhrr_dir"; "qual_dir"; "sunsatangles_dir"]%string.
+(* reader -> writer: Reader.save hands every quantity over under the parameter that stands for it *)
 Definition expected_params : list string :=
   ["satellite_name"; "xutcs"; "lats"; "lons"; "ref1"; "ref2"; "ref3"; "bt3"; "bt4"; "bt5"; "sun_zen"; "sat_zen"; "sun_azi"; "sat_azi";
    "rel_azi"; "qual_flags"; "start_line"; "end_line"; "gac_file"; "meta_data"; "output_file_prefix"; "avhrr_dir"; "qual_dir"; "sunsatangles_dir"]%string.
-
+Definition expected_roles : list (string * string) :=
+  [("satellite_name", "spacecraft_name"); ("xutcs", "times"); ("lats", "lats"); ("lons", "lons");
+   ("ref1", "ch0"); ("ref2", "ch1"); ("ref3", "ch2"); ("bt3", "ch3"); ("bt4", "ch4"); ("bt5", "ch5");
+   ("sun_zen", "sun_zen"); ("sat_zen", "sat_zen"); ("sun_azi", "sun_azi"); ("sat_azi", "sat_azi"); ("rel_azi", "rel_azi");
+   ("qual_flags", "qual_flags"); ("start_line", "start_line"); ("end_line", "end_line"); ("gac_file", "filename");
+   ("meta_data", "meta_data"); ("output_file_prefix", "output_file_prefix"); ("avhrr_dir", "avhrr_dir"); ("qual_dir", "qual_dir");
+   ("sunsatangles_dir", "sunsatangles_dir")]%string.
 Fixpoint strs_eqb (a b : list string) : bool :=
   match a, b with [], [] => true | x :: r, y :: s => String.eqb x y && strs_eqb r s | _, _ => false end.
-
-Lemma argument_order :
-  strs_eqb reader_save_args expected_save_args && strs_eqb save_gac_params expected_params &&
-  strs_eqb reader_angles_unpack ["sat_azi"; "sat_zen"; "sun_azi"; "sun_zen"; "rel_azi"]%string = true.
-Proof. vm_compute. reflexivity. Qed.
-
-(* save_gac -> avhrrGAC_io: positional arguments arrive under the parameter that stands for the same product *)
-Definition io_pairs := combine io_call_args io_params.
-Definition io_pair_ok (p : string * string) : bool :=
-  let '(a, b) := p in
-  String.eqb a b ||
-  str_mem (a ++ ">" ++ b)%string ["lats>arrLat_full"; "lons>arrLon_full"; "sun_zen>arrSZA"; "sat_zen>arrSTZ"; "sun_azi>arrSAA"; "sat_azi>arrSTA"; "rel_azi>arrRAA"]%string.
-Lemma io_order : (length io_call_args =? length io_params)%nat && forallb io_pair_ok io_pairs = true.
+Lemma argument_order : strs_eqb save_gac_params expected_params && kw_eqb reader_save_roles expected_roles = true.
 Proof. vm_compute. reflexivity. Qed.
 
 (* which product lands in which dataset of which file, with which integer type *)
 Definition expected_datasets : list (nat * string * string * string) :=
-  [(0%nat, "/image1/data", "int16", "ref1"); (0%nat, "/image2/data", "int16", "ref2"); (0%nat, "/image3/data", "int16", "bt3");
-   (0%nat, "/image4/data", "int16", "bt4"); (0%nat, "/image5/data", "int16", "bt5"); (0%nat, "/image6/data", "int16", "ref3");
-   (0%nat, "/where/lat/data", "int32", "arrLat_full"); (0%nat, "/where/lon/data", "int32", "arrLon_full");
-   (0%nat, "/how/channel_list", "", "channellist");
-   (1%nat, "/image1/data", "int16", "arrSZA"); (1%nat, "/image2/data", "int16", "arrSTZ"); (1%nat, "/image3/data", "int16", "arrRAA");
-   (1%nat, "/image4/data", "int16", "arrSAA"); (1%nat, "/image5/data", "int16", "arrSTA");
-   (1%nat, "/where/lat/data", "int32", "arrLat_full"); (1%nat, "/where/lon/data", "int32", "arrLon_full");
-   (2%nat, "data", "int16", "qual_flags"); (2%nat, "missing_scanlines", "int16", "miss_lines");
-   (2%nat, "scanline_timestamps", "int64", "xutcs.astype('int64')")]%string.
+  [(0%nat, "/how/channel_list", "object", "other");
+   (0%nat, "/image1/data", "int16", "ch0"); (0%nat, "/image2/data", "int16", "ch1"); (0%nat, "/image3/data", "int16", "ch3");
+   (0%nat, "/image4/data", "int16", "ch4"); (0%nat, "/image5/data", "int16", "ch5"); (0%nat, "/image6/data", "int16", "ch2");
+   (0%nat, "/where/lat/data", "int32", "lats"); (0%nat, "/where/lon/data", "int32", "lons");
+   (1%nat, "/image1/data", "int16", "sun_zen"); (1%nat, "/image2/data", "int16", "sat_zen"); (1%nat, "/image3/data", "int16", "rel_azi");
+   (1%nat, "/image4/data", "int16", "sun_azi"); (1%nat, "/image5/data", "int16", "sat_azi");
+   (1%nat, "/where/lat/data", "int32", "lats"); (1%nat, "/where/lon/data", "int32", "lons");
+   (2%nat, "/ancillary/missing_scanlines", "int16", "miss_lines"); (2%nat, "/ancillary/scanline_timestamps", "int64", "times");
+   (2%nat, "/qual_flags/data", "int16", "qual_flags")]%string.
 Fixpoint ds_eqb (a b : list (nat * string * string * string)) : bool :=
   match a, b with
   | [], [] => true
@@ -88,19 +69,18 @@ Fixpoint ds_eqb (a b : list (nat * string * string * string)) : bool :=
 Lemma datasets : ds_eqb io_datasets expected_datasets = true.
 Proof. vm_compute. reflexivity. Qed.
 
-Definition expected_scaling : list (string * string * string) :=
-  [("bt3", "Sub", "273.15"); ("bt4", "Sub", "273.15"); ("bt5", "Sub", "273.15");
-   ("bt3,bt4,bt5,ref1,ref2,ref3,sun_zen,sat_zen,sun_azi,sat_azi,rel_azi", "Mult", "100.0");
-   ("lats,lons", "Mult", "1000.0");
-   ("ref1,ref2,ref3,bt3,bt4,bt5,sun_zen,sat_zen,sun_azi,sat_azi,rel_azi", "fill", "MISSING_DATA");
-   ("lats,lons", "fill", "MISSING_DATA_LATLON")]%string.
-Fixpoint sc_eqb (a b : list (string * string * string)) : bool :=
-  match a, b with
-  | [], [] => true
-  | (x, y, z) :: r, (x', y', z') :: s => String.eqb x x' && String.eqb y y' && String.eqb z z' && sc_eqb r s
-  | _, _ => false
-  end.
-Lemma scaling : sc_eqb save_scaling expected_scaling = true /\ missing_data = -32001 /\ missing_data_latlon = -999999.
+(* encoding of every stored product, recovered from the stored values: reflectances and angles x100, brightness temperatures
+   (K - 273.15) x100, coordinates x1000; a missing value is stored as -32001 (-999999 for coordinates) *)
+Definition expected_encoding (role : string) : string * string :=
+  if str_mem role ["ch3"; "ch4"; "ch5"]%string then ("offset=273.15 scale=100.0", "-32001")%string
+  else if str_mem role ["lats"; "lons"]%string then ("offset=0.0 scale=1000.0", "-999999")%string
+  else ("offset=0.0 scale=100.0", "-32001")%string.
+Definition scaling_ok : bool :=
+  forallb (fun q => let '(role, enc, fill, _) := q in
+                    String.eqb enc (fst (expected_encoding role)) && String.eqb fill (snd (expected_encoding role))) save_scaling &&
+  forallb (fun r => str_mem r (map (fun q => fst (fst (fst q))) save_scaling))
+          ["ch0"; "ch1"; "ch2"; "ch3"; "ch4"; "ch5"; "sun_zen"; "sun_azi"; "sat_zen"; "sat_azi"; "rel_azi"; "lons"; "lats"]%string.
+Lemma scaling : scaling_ok = true /\ missing_data = -32001 /\ missing_data_latlon = -999999.
 Proof. repeat split. Qed.
 
 (* ---------- which rows ---------- *)
